@@ -302,9 +302,14 @@ template<class T, std::size_t S>
 void small_vector<T, S>::push_back(const T &x)
 {
   if (size_ == capacity_)
+  {
+    // `x` may be an element of this vector: it must be copied before the
+    // current storage is moved from / released.
+    T tmp(x);
     grow();
-
-  if (local_storage_used())
+    new (size_) T(std::move(tmp));
+  }
+  else if (local_storage_used())
     *size_ = x;
   else
     new (size_) T(x);
@@ -316,9 +321,14 @@ template<class T, std::size_t S>
 template<class... Args> void small_vector<T, S>::emplace_back(Args &&... args)
 {
   if (size_ == capacity_)
+  {
+    // The arguments may refer to an element of this vector: the new object
+    // is built before the current storage is moved from / released.
+    T tmp(std::forward<Args>(args)...);
     grow();
-
-  if (local_storage_used())
+    new (size_) T(std::move(tmp));
+  }
+  else if (local_storage_used())
     *size_ = T(std::forward<Args>(args)...);
   else
     new (size_) T(std::forward<Args>(args)...);
